@@ -104,13 +104,13 @@ func init() {
 	boundedChecks["C13"] = append(boundedChecks["C13"], func(w *World, tier string, seed int, verif string) []boundedResult {
 		return []boundedResult{runHarness(w, verif, tier, seed, harnessSpec{
 			name: "signature-vs-canon", pkg: "dig", pkgName: "dig", dir: "abi", files: []string{"sig_bounded_test.go"}, run: "TestVerifSigBounded",
-			bound: "real Event.Signature vs an independent canonicalisation: 16 elementary/array leaves, 2-component tuples with 7 array suffixes (incl. [][], [2][], [][4], [3][2][]), tuples nested to depth 3, paired into 2-input events; SignatureHash vs the known Keccak-256 of Transfer/Approval",
+			bound: "real Event.Signature vs an independent canonicalisation: 16 elementary/array leaves, 2-component tuples with 7 array suffixes (incl. [][], [2][], [][4], [3][2][]), tuples nested to depth 3, paired into 2-input events; SignatureHash vs the known Keccak-256 of Transfer/Approval; the acceptance gate of the real dig.New + processLog for 61 events with 0..3 indexed inputs (address, uint256[], string, tuple, tuple[]) x logs with 1..5 topics x first topic = / != an independently computed Keccak-256 of the canonical signature: a row iff the hash matches and there is exactly one further topic per indexed input",
 		})}
 	})
 	boundedChecks["C14"] = append(boundedChecks["C14"], func(w *World, tier string, seed int, verif string) []boundedResult {
 		return []boundedResult{runHarness(w, verif, tier, seed, harnessSpec{
 			name: "plan-all-pairs", pkg: "dig", pkgName: "dig", dir: "plan", files: []string{"plan_bounded_test.go"}, run: "TestVerifPlanBounded",
-			bound: "every field name of the row builder (read from the source) alone and in every ordered pair, in tx, log and trace indexing mode, through the real dig.New -> Filter (glf plan) -> jrpc2.Client.Get -> Integration.Insert against a scripted JSON-RPC node with all fields distinct and non-zero; each stored column compared with the node's value; plus 30 ordered pairs of data plans on one shared client; thorough tier: plus 1200 seeded random sets of 3..8 fields",
+			bound: "every field name of the row builder (read from the source) alone and in every ordered pair, in tx, log and trace indexing mode, through the real dig.New -> Filter (glf plan) -> jrpc2.Client.Get -> Integration.Insert against a scripted JSON-RPC node with all fields distinct and non-zero; each stored column compared with the node's value; plus 30 ordered pairs of data plans on one shared client; plus 6 data plans x batches of 3 blocks in which the first, the middle, the last, the first two or all blocks have no transactions (an error is accepted for the trace plan: the client rejects an empty trace_block answer); thorough tier: plus 1200 seeded random sets of 3..8 fields",
 		}), runHarness(w, verif, tier, seed, harnessSpec{
 			name: "glf-difference-any", pkg: "shovel/glf", pkgName: "glf", dir: "glf", files: []string{"glf_bounded_test.go"}, run: "TestVerifGLFBounded",
 			bound: "real glf.difference and glf.any vs set semantics for all slices of length <= 3 over a 3-letter alphabet (40 slices; difference with two 'others' arguments, the second from the first 14 slices)",
@@ -146,10 +146,10 @@ func init() {
 	boundedChecks["C11"] = append(boundedChecks["C11"], func(w *World, tier string, seed int, verif string) []boundedResult {
 		return []boundedResult{runHarness(w, verif, tier, seed, harnessSpec{
 			name: "inputs-to-columns", pkg: "dig", pkgName: "dig", dir: "abi", files: []string{"inputs_bounded_test.go"}, run: "TestVerifInputsBounded",
-			bound: "a five-input event (three indexed inputs of types address, uint256, bytes32 and two data inputs uint256, address) in three declaration orders x every non-empty subset of selected inputs (93 cases) through the real dig.New (setCols) + processLog on a log whose topics and data words all differ: every selected column holds the value of the input it was declared for",
+			bound: "a five-input event (three indexed inputs of types address, uint256, bytes32 and two data inputs uint256, address) in three declaration orders x every non-empty subset of selected inputs (93 cases), and a four-input event with a never-selected data input of type uint256[2], address[3], (uint256,address), (uint256[2],bool), string or uint256[] in front of, between or behind the selected data inputs x every non-empty subset of the other three (126 cases), through the real dig.New (setCols) + processLog on a log whose topics and data words all differ: every selected column holds the value of the input it was declared for",
 		}), runHarness(w, verif, tier, seed, harnessSpec{
 			name: "plan-all-pairs", pkg: "dig", pkgName: "dig", dir: "plan", files: []string{"plan_bounded_test.go"}, run: "TestVerifPlanBounded",
-			bound: "every field name of the row builder (read from the source) alone and in every ordered pair, in tx, log and trace indexing mode, through the real dig.New -> Filter -> jrpc2.Client.Get -> Integration.Insert against a scripted JSON-RPC node in which every field of every item (2 transactions, 2 trace actions each) has a distinct non-zero value: each stored column must equal the value of the field it names for that very item; plus 30 ordered pairs of data plans on one shared client; thorough tier: plus 1200 seeded random sets of 3..8 fields",
+			bound: "every field name of the row builder (read from the source) alone and in every ordered pair, in tx, log and trace indexing mode, through the real dig.New -> Filter -> jrpc2.Client.Get -> Integration.Insert against a scripted JSON-RPC node in which every field of every item (2 transactions, 2 trace actions each) has a distinct non-zero value: each stored column must equal the value of the field it names for that very item; plus 30 ordered pairs of data plans on one shared client; plus batches of 3 with blocks without transactions; thorough tier: plus 1200 seeded random sets of 3..8 fields",
 		})}
 	})
 	boundedChecks["C20"] = append(boundedChecks["C20"], func(w *World, tier string, seed int, verif string) []boundedResult {
@@ -174,12 +174,12 @@ func init() {
 	// the same stand-ins that decide it for C11/C12/C14
 	// cached answers must be the answers of an uncached client: the shared-client
 	// scenarios of the all-pairs stand-in (different plans, different lengths on one client)
-	for _, pid := range []string{"C06", "C08"} {
+	for _, pid := range []string{"C06", "C08", "C04"} {
 		pid := pid
 		boundedChecks[pid] = append(boundedChecks[pid], func(w *World, tier string, seed int, verif string) []boundedResult {
 			return []boundedResult{runHarness(w, verif, tier, seed, harnessSpec{
 				name: "plan-all-pairs", pkg: "dig", pkgName: "dig", dir: "plan", files: []string{"plan_bounded_test.go"}, run: "TestVerifPlanBounded",
-				bound: "see C14; relevant here: 30 ordered pairs of data plans on one shared client (twice each) and, per plan, requests for the same first block with lengths (2,1,2), (1,2,1), (3,2,3) on one client: every answer must be what an uncached client would deliver (row counts and every stored value)",
+				bound: "see C14; relevant here: 30 ordered pairs of data plans on one shared client (twice each) and, per plan, requests for the same first block with lengths (2,1,2), (1,2,1), (3,2,3) on one client: every answer must be what an uncached client would deliver (row counts and every stored value) - for C04: what one (source, integration) pair left in the shared client must not change the rows of another pair",
 			})}
 		})
 	}
